@@ -25,7 +25,8 @@ bare ``ProxiedCircuit`` x {OUT, IN} x {reliable, unreliable} x {acks, none}.
 
 Async-subscriber family: an addon coroutine on the virtual loop owns ``subscribe_async`` (left by: normal exit or exception before
 any message, cancellation while waiting, normal exit / exception / cancellation after message 1) or ``wait_for`` (satisfied,
-timed out by advancing virtual time, future cancelled; with and without timeout) x {session, region handler} x take
+timed out by advancing virtual time, future cancelled; with and without timeout) x {one message name, two names resolved by
+the first / by the second} x {session, region handler} x take
 {True, False} x direction x reliability of message 1 x order of the later messages; afterwards two matching datagrams
 (reliable + unreliable) and one non-matching probe per direction must each be forwarded exactly once with no proxy-made
 PacketAck, and the handler's subscriber count must be back at its baseline (clauses subscriber-leak,
@@ -40,6 +41,8 @@ whether the message is claimed; the wire is observed through the taps.
                                 "do not forward"; this is the documented addon API and what "claimed" means in the statement)
   later-hooks-run               the hook invocation log equals the model's (a raising hook never prevents later addons'
                                 hooks; reported as hook-dispatch when no hook raised)
+  bookkeeping-drop-ack          a reliable message that a hook or the proxy itself (command channel, RLV, queued) drops is acknowledged
+                                to its sender exactly once, an undropped one never (also when the command / a hook failed)
   bookkeeping-acks / -logger / -region-death
                                 piggy-backed ack for the proxy's own reliable packet is collected, the message logger is
                                 called once for the message, CloseCircuit kills the region unless a hook claimed it by
@@ -300,6 +303,7 @@ class Pred:
         self.hook_sent = False
         self.rlv_handled: List[bool] = []
         self.pred_raised = False
+        self.dropped = False        # the original was drop_message()d (by a hook or by the proxy): a reliable one is acked to its sender
         self.unsub: List[Tuple[str, int]] = []
 
 
@@ -328,6 +332,7 @@ def predict(cfg: Dict[Tuple[str, int], str], kind: str, rlv_per_command_drop: bo
                 p.raised = True
             else:
                 p.fin = True
+                p.dropped = True
                 p.claimed = True
         elif b == "send":
             if p.fin or p.queued:
@@ -394,6 +399,7 @@ def predict(cfg: Dict[Tuple[str, int], str], kind: str, rlv_per_command_drop: bo
             p.escape = "command-channel drop of a finalized message"
             return p
         p.fin = True
+        p.dropped = True
         p.claimed = True
         handled = True
         p.cmd_runs = beh(("cmd", 0)) in ("ok", "raise_async")
@@ -421,10 +427,12 @@ def predict(cfg: Dict[Tuple[str, int], str], kind: str, rlv_per_command_drop: bo
                     all_handled = False   # the per-command drop raises, the loop's except marks it unhandled
                 else:
                     p.fin = True
+                    p.dropped = True
         if all_handled:
             handled = True
             if not rlv_per_command_drop and not p.fin:
                 p.fin = True
+                p.dropped = True
         else:
             handled = lu_chain()
     else:
@@ -437,6 +445,7 @@ def predict(cfg: Dict[Tuple[str, int], str], kind: str, rlv_per_command_drop: bo
             p.escape = "tail drop of a queued message that is already finalized"
             return p
         p.fin = True
+        p.dropped = True
     p.logger = True
     if handled:
         return p
@@ -568,6 +577,8 @@ def execute(msg, assign) -> Tuple[List[Dict[str, str]], Dict[str, Any]]:
         "fut_done": fut.done() if fut is not None else None,
         "acks": acks,
         "alive": bool(region.circuit.is_alive),
+        "rel": bool(rel),
+        "m_acks": sum(n for ph, m, n in ctl.emissions if ph == "M" and m is not orig and m.name == "PacketAck"),
         "probes": [],
     }
     # ---- probes: later traffic must be unaffected whatever happened above
@@ -653,6 +664,10 @@ def judge(cfg, kind: str, pm: Pred, obs: Dict[str, Any], tag: str) -> Tuple[List
                                       f" (a hook raised: {pm.raised})")
         if obs["fut_done"] is False and pm.acks:
             bad("bookkeeping-acks", f"piggy-backed ack {obs['acks']} for the proxy's own reliable packet was not collected (a hook raised: {pm.raised})")
+        want_acks = 1 if (obs["rel"] and pm.dropped) else 0
+        if obs["m_acks"] != want_acks:
+            bad("bookkeeping-drop-ack", f"reliable={obs['rel']}, message dropped per model={pm.dropped}: the proxy emitted {obs['m_acks']} "
+                                        f"PacketAck on its behalf, expected {want_acks} (a hook raised: {pm.raised})")
         if kind == "close" and pm.dead and obs["alive"]:
             bad("bookkeeping-region-death", f"CloseCircuit not claimed by any hook but the region is still alive (a hook raised: {pm.raised})")
     if obs["verbatim"] is False:
@@ -864,13 +879,15 @@ def async_cases():
             for d in (OUT, IN):
                 for rel1 in (0, 1):
                     for order in (0, 1):
-                        for beh in SA_BEH:
-                            yield ("subscribe_async", level, take, beh, None, d, rel1, order)
-                        for beh, tmo in WF_BEH:
-                            yield ("wait_for", level, take, beh, tmo, d, rel1, order)
+                        # multi: 0 = one message name; "A"/"B" = two names, message 1 carries the first / the second
+                        for multi in (0, "A", "B"):
+                            for beh in SA_BEH:
+                                yield ("subscribe_async", level, take, beh, None, d, rel1, order, multi)
+                            for beh, tmo in WF_BEH:
+                                yield ("wait_for", level, take, beh, tmo, d, rel1, order, multi)
 
 
-def async_case(api, level, take, beh, tmo, d, rel1, order) -> Tuple[List[Dict[str, str]], Dict[str, Any]]:
+def async_case(api, level, take, beh, tmo, d, rel1, order, multi=0) -> Tuple[List[Dict[str, str]], Dict[str, Any]]:
     """An addon coroutine owns an async subscription (what BaseAddon tasks, XferManager, TransferManager do), leaves it by
     some route, and *afterwards* two matching datagrams (unreliable/reliable in both orders) and one non-matching probe
     per direction arrive.  After the subscription has ended by ANY route: every later datagram is forwarded exactly once,
@@ -905,12 +922,15 @@ def async_case(api, level, take, beh, tmo, d, rel1, order) -> Tuple[List[Dict[st
 
     H = s.message_handler if level == "session" else region.message_handler
     name = "ChatFromViewer" if d == OUT else "ChatFromSimulator"
+    # the second name of a two-name subscription is the name of the same-direction "probe" datagram
+    names = (name,) if not multi else (name, "AgentPause" if d == OUT else "HealthMessage")
+    first = "probe" if multi == "B" else "match"
 
     def n_subs():
-        ev = H.handlers.get(name)
-        return len(ev) if ev is not None else 0
+        return sum(len(H.handlers[nm]) for nm in names if nm in H.handlers)
     baseline = n_subs()
-    site = f"async:{api}:{level}:{beh}" + (f":timeout={tmo}" if api == "wait_for" else "") + f":take={take}"
+    site = (f"async:{api}:{level}:{beh}" + (f":timeout={tmo}" if api == "wait_for" else "") + f":take={take}"
+            + (f":names=2,first={multi}" if multi else ""))
     viols: List[Dict[str, str]] = []
 
     def bad(clause, detail):
@@ -944,7 +964,7 @@ def async_case(api, level, take, beh, tmo, d, rel1, order) -> Tuple[List[Dict[st
     task = fut = None
     if api == "subscribe_async":
         async def addon_task():
-            with H.subscribe_async((name,), take=take) as get_msg:
+            with H.subscribe_async(names, take=take) as get_msg:
                 if beh == "raise_before":
                     raise Exception("addon failure before any message")
                 if beh == "exit_before":
@@ -957,13 +977,13 @@ def async_case(api, level, take, beh, tmo, d, rel1, order) -> Tuple[List[Dict[st
         task = w.loop.create_task(addon_task())
         w.loop.run_ready()
         inside = beh in ("cancel_waiting", "exit_after_1", "raise_after_1", "cancel_after_1")
-        if inside and n_subs() != baseline + 1:
-            bad("subscriber-count", f"inside the block: {n_subs()} subscribers, expected {baseline + 1}")
+        if inside and n_subs() != baseline + len(names):
+            bad("subscriber-count", f"inside the block: {n_subs()} subscribers, expected {baseline + len(names)}")
         if beh == "cancel_waiting":
             task.cancel()
             w.loop.run_ready()
         elif beh in ("exit_after_1", "raise_after_1", "cancel_after_1"):
-            r = send("match", d, 0x40 if rel1 else 0, "msg1")
+            r = send(first, d, 0x40 if rel1 else 0, "msg1")
             want = 0 if take else 1
             if r["n_orig"] != want or r["exc"] is not None:
                 bad("claim-respected" if take else "exactly-once-unless-claimed",
@@ -980,12 +1000,12 @@ def async_case(api, level, take, beh, tmo, d, rel1, order) -> Tuple[List[Dict[st
         elif not task.cancelled():
             task.exception()   # retrieve, so that the loop does not log it
     else:
-        fut = H.wait_for((name,), timeout=tmo, take=take)
+        fut = H.wait_for(names, timeout=tmo, take=take)
         w.loop.run_ready()
-        if n_subs() != baseline + 1:
-            bad("subscriber-count", f"while waiting: {n_subs()} subscribers, expected {baseline + 1}")
+        if n_subs() != baseline + len(names):
+            bad("subscriber-count", f"while waiting: {n_subs()} subscribers, expected {baseline + len(names)}")
         if beh == "got_1":
-            r = send("match", d, 0x40 if rel1 else 0, "msg1")
+            r = send(first, d, 0x40 if rel1 else 0, "msg1")
             want = 0 if take else 1
             if r["n_orig"] != want or r["exc"] is not None or not fut.done():
                 bad("claim-respected" if take else "exactly-once-unless-claimed",
@@ -1006,9 +1026,11 @@ def async_case(api, level, take, beh, tmo, d, rel1, order) -> Tuple[List[Dict[st
     leak_clause = "waitfor-cancel-leak" if wf_cancel else "subscriber-leak"
     left_behind = n_subs() - baseline
     if left_behind and not wf_cancel:
-        bad(leak_clause, f"after the subscription ended ({beh}): handler has {n_subs()} subscribers for {name}, baseline {baseline}")
+        bad(leak_clause, f"after the subscription ended ({beh}): handler has {n_subs()} subscribers for {names}, baseline {baseline}")
     later = [("match", d, 0), ("match", d, 0x40)] if order == 0 else [("match", d, 0x40), ("match", d, 0)]
     later += [("probe", d, 0), ("probe", IN if d == OUT else OUT, 0x40)]
+    if multi:   # the other subscribed name, reliable too (a stale taking subscriber would make the proxy ack + drop it)
+        later += [("probe", d, 0x40), ("match", d, 0)]
     for n, (what, dd, flags) in enumerate(later):
         r = send(what, dd, flags, f"later{n}")
         lost = r["n_orig"] != 1 or r["to_peer"] < 1 or r["exc"] is not None
@@ -1021,7 +1043,7 @@ def async_case(api, level, take, beh, tmo, d, rel1, order) -> Tuple[List[Dict[st
                 f"later datagram #{n} ({what}, {dd}, flags={flags:#x}) after {beh}: proxy emitted {r['proxy_acks']} PacketAck and "
                 f"{r['other']} other messages of its own")
     if n_subs() != baseline:
-        bad(leak_clause, f"at the end: handler has {n_subs()} subscribers for {name}, baseline {baseline}")
+        bad(leak_clause, f"at the end: handler has {n_subs()} subscribers for {names}, baseline {baseline}")
     info = {"n_viol": len(viols), "subs": left_behind, "wf_cancel_left_behind": bool(wf_cancel and left_behind), "task": None if task is None else ("cancelled" if task.cancelled() else "done")}
     return viols, info
 
